@@ -54,7 +54,7 @@ def check(run):
         run.guard("C04.via.C01.4.token-boundary", cfg, lambda: _C01.rule_token_cap_unbounded(btc, F, cfg))
         from . import C02 as _C02rc
         brc = run.borrow("C02", only=r"regex-text-case|builders-", why="adding an inert rule (a /regex/ that does not compile) must not change how its fused siblings match")
-        run.guard("C04.via.C02.3.regex-translation", cfg, lambda: (_C02rc.rule_regex_case(brc, F, cfg), _C02rc.rule_translation(brc, F, cfg)))
+        run.guard("C04.via.C02.3.regex-translation", cfg, lambda: (_C02rc.rule_regex_case(brc, F, cfg), _C02rc.rule_regex_builder(brc, F, cfg)))
 
 
 def rule_routing(run, F, cfg):
